@@ -200,6 +200,10 @@ func (g *G) genReqCC() []string {
 	if g.chance(0.55) {
 		return nil
 	}
+	if g.chance(0.08) {
+		// an unknown extension whose quoted-string argument ends in a quoted-pair, BEFORE the directives that matter
+		cc = append(cc, pick(g, `ext="C:\\"`, `e2="a\"b"`, `e3="x, only-if-cached"`))
+	}
 	for _, f := range []string{"no-cache", "only-if-cached", "no-store", "no-transform"} {
 		if g.chance(0.18) {
 			cc = append(cc, f)
